@@ -488,7 +488,7 @@ func replayMode(in, out string) {
 }
 
 func main() {
-	mode := flag.String("mode", "replay", "replay | chain | bignet")
+	mode := flag.String("mode", "replay", "replay | chain | bignet | gov-replay | gov-chain")
 	in := flag.String("in", "", "replay: directory with beh_*.json")
 	out := flag.String("out", "", "output directory")
 	seed := flag.Int64("seed", 1, "chain: seed")
@@ -509,6 +509,15 @@ func main() {
 		b, _ := json.MarshalIndent(st, "", " ")
 		must(os.WriteFile(filepath.Join(*out, "summary.json"), b, 0o644))
 		fmt.Printf("{\"runs\":%d,\"blocks\":%d,\"divergences\":%d}\n", st.Runs, st.Blocks, len(st.Divergences))
+	case "gov-replay":
+		govReplayMode(*in, *out)
+	case "gov-chain":
+		w := &trace.Writer{}
+		st := govChainMode(w, *seed)
+		must(w.WriteFile(filepath.Join(*out, "trace.ndjson")))
+		b, _ := json.MarshalIndent(st, "", " ")
+		must(os.WriteFile(filepath.Join(*out, "summary.json"), b, 0o644))
+		fmt.Printf("{\"blocks\":%d,\"divergences\":%d}\n", st.Blocks, len(st.Divergences))
 	case "bignet":
 		w := &trace.Writer{}
 		st := bigNetMode(w, *seed, *blocks)
